@@ -1,7 +1,7 @@
 """C15 - the tokenizer configuration space is enumerated exactly and identified uniquely."""
 ID = "C15"
 LEVEL = "exploration"
-LEVEL_TEXT = 'Bounded, complete per element family in the quick tier and over all 5,878,656 tokenizers in the thorough tier: an independent count/enumeration from the dataclass field types and the documented validity rules, names and stable hashes pairwise distinct, stable across PYTHONHASHSEED, save/load, legacy equivalence.'
+LEVEL_TEXT = 'Bounded, complete per element family in the quick tier and over all 5,878,656 tokenizers in the thorough tier: an independent count/enumeration from the dataclass field types and the documented validity rules, names and stable hashes pairwise distinct, stable across PYTHONHASHSEED, save/load, legacy equivalence (in the quick tier on a 20,000-configuration sample, the images of the legacy modes and all their one-element neighbours), identity unchanged by use, and a multi-step history: the test sampler is used and the enumerated set looked at again (on a stubbed small set in the quick tier, on the real set in the thorough tier). No function of this property is within the prover\'s subset (reflection over type hints, decorators): an honest bounded decision, complete in the thorough tier.'
 LEVEL_NOTE = 'Type-hint reflection in all_instances is outside the verified subset.'
 TECHNIQUE = "bounded stand-in of the contract-based verifier: run-time checking of the real code against an independent executable statement over an enumerated scope (no function of this property is in the verified subset yet)"
 CONTRACT_MODULES = []
